@@ -27,12 +27,37 @@ type sessGen struct {
 	wild     bool // may leave the guard
 	modelled bool // only the kinds of definition the Coq session model covers
 	wildText bool // set when a text-level feature outside the model was used
-	curFun   string
+	curFun     string
+	flavorVars map[string][]flavorVar // every instance variable (own and inherited) with its default
+	flavorInit map[string]bool        // :inittable-instance-variables
+	flavorGet  map[string]bool
+	flavorSet  map[string]bool
+	instVars   map[string]bool        // variables holding instances (their printed value has an address)
+	calls    map[string]map[string]bool // user function -> user functions and macros its body mentions
+}
+
+type flavorVar struct{ name, def string }
+
+// reaches: does the body of function a (transitively) call b?
+func (g *sessGen) reaches(a, b string, seen map[string]bool) bool {
+	if a == b {
+		return true
+	}
+	if seen[a] {
+		return false
+	}
+	seen[a] = true
+	for c := range g.calls[a] {
+		if g.reaches(c, b, seen) {
+			return true
+		}
+	}
+	return false
 }
 
 var varNames = []string{"*va*", "*vb*", "*vc*", "*vd*", "*ve*", "*vf*"}
 var constNames = []string{"+ca+", "+cb+", "+cc+"}
-var funNames = []string{"fa", "fb", "fc", "fd", "fe", "ff", "fg"}
+var funNames = []string{"fa", "fb", "fc", "fd", "fe", "ff", "fg", "za", "zb", "zc"}
 var macNames = []string{"ma", "mb", "mc"}
 var pkgNames = []string{"pka", "pkb"}
 var flavorNames = []string{"fla", "flb", "flc"}
@@ -150,7 +175,11 @@ func (g *sessGen) value() string {
 		return s + " table)"
 	case x < 84:
 		g.hist("value:lambda")
-		return common.Pick(g.r, []string{"(lambda (x) (* x 2))", "(lambda (x y) (list x y))", "(lambda () 3)", "(lambda (x &optional (y 2)) (+ x y))"})
+		if g.r.Chance(60) {
+			g.curFun = "" // a variable's value is loaded before every function: it calls none
+			return fmt.Sprintf("(lambda (x) %s)", g.expr([]string{"x"}, 2))
+		}
+		return common.Pick(g.r, []string{"(lambda (x) (* x 2))", "(lambda (x &rest y) (list x y))", "(lambda (x &optional (y 2)) (+ x y))"})
 	case x < 90:
 		g.hist("value:type-symbol")
 		return common.Pick(g.r, []string{"'fixnum", "'list", "'string"})
@@ -191,6 +220,11 @@ func (g *sessGen) expr(vars []string, depth int) string {
 	if depth <= 0 || g.r.Chance(30) {
 		return atom()
 	}
+	// a wider range of special forms (every head symbol the pretty printer has a layout for, with argument counts at
+	// and beyond what the layout expects); all of them total and numeric, so that they nest
+	if g.r.Chance(45) {
+		return g.special(vars, depth, atom)
+	}
 	switch x := g.r.Intn(100); {
 	case x < 30:
 		g.hist("expr:arith")
@@ -212,7 +246,9 @@ func (g *sessGen) expr(vars []string, depth int) string {
 		var cands []string
 		for n, k := range g.funs {
 			if k == "(x)" || k == "(x &optional (y 2))" || k == "(x &rest r)" || k == "(x &key (k 3) j)" {
-				if g.wild || n < g.curFun { // reloaded in name order: a tame body only calls what sorts before it
+				// never a cycle (probes must terminate); reloaded in name order: a tame body only calls what sorts
+				// before it (a function called before it is defined loses its name in the next snapshot)
+				if !g.reaches(n, g.curFun, map[string]bool{}) && ((g.wild && g.curFun != "") || n < g.curFun) {
 					cands = append(cands, n)
 				}
 			}
@@ -220,7 +256,12 @@ func (g *sessGen) expr(vars []string, depth int) string {
 		sort.Strings(cands)
 		if len(cands) > 0 {
 			g.hist("expr:call-user-function")
-			return fmt.Sprintf("(%s %s)", common.Pick(g.r, cands), g.expr(vars, depth-1))
+			callee := common.Pick(g.r, cands)
+			if g.calls[g.curFun] == nil {
+				g.calls[g.curFun] = map[string]bool{}
+			}
+			g.calls[g.curFun][callee] = true
+			return fmt.Sprintf("(%s %s)", callee, g.expr(vars, depth-1))
 		}
 		return atom()
 	case x < 80:
@@ -232,12 +273,31 @@ func (g *sessGen) expr(vars []string, depth int) string {
 			cands = append(cands, v)
 		}
 		sort.Strings(cands)
-		if len(cands) > 0 && g.wild {
+		for c := range g.consts {
+			cands = append(cands, c)
+		}
+		sort.Strings(cands)
+		if len(cands) > 0 {
 			g.hist("expr:global-variable")
-			return fmt.Sprintf("(if (numberp %s) %s 0)", cands[g.r.Intn(len(cands))], cands[0])
+			c := cands[g.r.Intn(len(cands))]
+			return fmt.Sprintf("(if (numberp %s) %s 0)", c, c)
 		}
 		return atom()
 	default:
+		{
+			// functions and macros are reloaded together in name order: a tame body only uses macros that sort before it
+			var ms []string
+			for m := range g.macros {
+				if m < g.curFun {
+					ms = append(ms, m)
+				}
+			}
+			sort.Strings(ms)
+			if len(ms) > 0 && g.r.Chance(60) {
+				g.hist("expr:macro-call-earlier-name")
+				return fmt.Sprintf("(%s %s)", ms[g.r.Intn(len(ms))], atom())
+			}
+		}
 		if g.wild {
 			switch g.r.Intn(4) {
 			case 0:
@@ -254,7 +314,7 @@ func (g *sessGen) expr(vars []string, depth int) string {
 					ms = append(ms, m)
 				}
 				sort.Strings(ms)
-				if len(ms) > 0 {
+				if len(ms) > 0 && g.curFun != "" {
 					g.hist("expr:macro-call")
 					return fmt.Sprintf("(%s %s)", ms[g.r.Intn(len(ms))], atom())
 				}
@@ -262,6 +322,91 @@ func (g *sessGen) expr(vars []string, depth int) string {
 		}
 		g.hist("expr:progn")
 		return fmt.Sprintf("(progn %s %s)", atom(), g.expr(vars, depth-1))
+	}
+}
+
+// special: one of the forms with a layout of their own in pp/*.go (or close relatives), around sub-expressions.
+func (g *sessGen) special(vars []string, depth int, atom func() string) string {
+	e := func() string { return g.expr(vars, depth-1) }
+	with := func(v ...string) func() string {
+		return func() string { return g.expr(append(append([]string{}, v...), vars...), depth-1) }
+	}
+	k := g.r.Intn(34)
+	g.hist(fmt.Sprintf("special:%02d", k))
+	switch k {
+	case 0:
+		return fmt.Sprintf("(let* ((v %s) (w (+ v 1))) (* v %s))", e(), with("v", "w")())
+	case 1: // setq with one, two and three pairs
+		return fmt.Sprintf("(let (p q) (setq p %s q (* 2 p)) (+ p q))", e())
+	case 2:
+		return fmt.Sprintf("(let (p q r) (setq p %s q (+ p 1) r (* p q)) (setq p (+ p r)) (- p q))", e())
+	case 3:
+		return fmt.Sprintf("(let ((acc 0)) (when (> %s 0) (setq acc 1) (setq acc (+ acc %s))) (unless (> acc 0) (setq acc -1) (setq acc (* acc 3))) acc)", e(), atom())
+	case 4: // cond clauses with one, two and three forms
+		return fmt.Sprintf("(cond ((< %s 0) 1 %s) ((= %s 0) 0) (t %s))", atom(), e(), atom(), e())
+	case 5:
+		return fmt.Sprintf("(if (cond ((> %s 100)) (t nil)) 1 %s)", atom(), e())
+	case 6:
+		return fmt.Sprintf("(block blk %s %s)", atom(), e())
+	case 7:
+		return fmt.Sprintf("(let ((acc 0)) (dotimes (i 3) (setq acc (+ acc i %s))) acc)", atom())
+	case 8:
+		return fmt.Sprintf("(let ((acc %s)) (dotimes (i 3 acc) (setq acc (+ acc i)) (setq acc (* acc 2))))", e())
+	case 9:
+		return fmt.Sprintf("(let ((acc 0)) (dolist (el (list 1 2 %s) acc) (setq acc (+ acc el))))", e())
+	case 10:
+		return fmt.Sprintf("(let ((acc 0)) (dolist (el '(1 2 3)) (setq acc (+ acc el %s))) acc)", atom())
+	case 11:
+		return fmt.Sprintf("(do ((i 0 (+ i 1)) (s %s (+ s i))) ((>= i 3) s))", atom())
+	case 12:
+		return fmt.Sprintf("(do* ((i 0 (+ i 1)) (s %s)) ((>= i 3) (+ s 1)) (setq s (+ s i)) (setq s (* s 2)))", e())
+	case 13:
+		return fmt.Sprintf("(let ((sum 0)) (dovector (el #(1 2 3) sum) (setq sum (+ sum el %s))))", atom())
+	case 14:
+		return fmt.Sprintf("(length (with-output-to-string (s) (princ %s s) (princ \"ab\" s)))", e())
+	case 15:
+		return fmt.Sprintf("(with-input-from-string (s \"12 34\") (+ (read s) (read s) %s))", atom())
+	case 16:
+		return fmt.Sprintf("(funcall (lambda (q &optional (r 3)) (+ q r)) %s)", e())
+	case 17:
+		return fmt.Sprintf("(apply '+ (mapcar (lambda (q) (* q q)) (list 1 2 %s)))", e())
+	case 18:
+		return fmt.Sprintf("(let (a (b 2)) (setq a %s) (+ a b))", e())
+	case 19:
+		return fmt.Sprintf("(case (mod (abs %s) 3) (0 10) ((1 2) 11) (t 12))", e())
+	case 20:
+		return fmt.Sprintf("(length (format nil \"~A-~S\" %s \"q\\\"x\"))", atom())
+	case 21:
+		return fmt.Sprintf("(let ((f (lambda (z) (+ z 1)))) (funcall f %s))", e())
+	case 22:
+		return fmt.Sprintf("(multiple-value-bind (q r) (truncate 17 5) (+ q r %s))", e())
+	case 23:
+		return fmt.Sprintf("(let ((l (list 1 2 3))) (setf (car l) %s) (apply '+ l))", e())
+	case 24:
+		return fmt.Sprintf("(let ((n %s)) (incf n) (incf n 2) (decf n) n)", e())
+	case 25:
+		return fmt.Sprintf("(let ((l nil)) (push %s l) (push 1 l) (+ (length l) (pop l)))", e())
+	case 26:
+		return fmt.Sprintf("(if (and (string= \"a\\\"b\" \"a\\\"b\") (char= #\\a #\\a) (or nil (> %s -100))) %s 0)", atom(), e())
+	case 27:
+		return fmt.Sprintf("(let ((v #(1 2 3))) (setf (aref v 0) %s) (+ (aref v 0) (aref v 2)))", e())
+	case 28:
+		return fmt.Sprintf("(let ((z 0)) (unwind-protect (+ %s 1) (setq z 1)))", e())
+	case 29:
+		return fmt.Sprintf("(length '(a (quote b) \"s\" #\\a :k 1.5 (let ((z 1)) z) (setq p 1 q 2) (defun f (x) x) (cond (a b))))")
+	case 30:
+		return fmt.Sprintf("(let ((v (let ((w (* %s 2))) (+ w 1)))) (let ((u v)) (+ u v)))", e())
+	case 31:
+		return fmt.Sprintf("(let ((z 0)) (prog1 (+ %s z 1) (setq z 5)))", e())
+	case 32:
+		return fmt.Sprintf("(let ((h (make-hash-table))) (setf (gethash 'k h) %s) (+ 1 (gethash 'k h)))", e())
+	default:
+		if !g.wild {
+			// a defparameter nested in a body makes the pretty printer (and with it the snapshot) fail once the
+			// enclosing form is wide [C19-pp-nested-definition]: outside the guard
+			return fmt.Sprintf("(typecase %s (fixnum %s) (string 2) (t 3))", atom(), e())
+		}
+		return fmt.Sprintf("(progn (defparameter *scratch-%d* %s \"scratch doc\") (typecase *scratch-%d* (fixnum *scratch-%d*) (string 2) (t 3)))", k, atom(), k, k)
 	}
 }
 
@@ -278,6 +423,9 @@ func (g *sessGen) qual(n string) string {
 
 func (g *sessGen) step() {
 	x := g.r.Intn(100)
+	if !g.modelled && g.r.Chance(45) {
+		x = 70 + g.r.Intn(30) // extended sessions: more packages, flavors, generic functions
+	}
 	switch {
 	case x < 14:
 		n := g.pick(varNames)
@@ -337,7 +485,7 @@ func (g *sessGen) step() {
 		}
 		k := llKinds[g.r.Intn(len(llKinds))]
 		g.curFun = g.qual(n)
-		delete(g.funs, g.qual(n)) // a function never calls itself (no unbounded recursion in probes)
+		delete(g.calls, g.qual(n))
 		g.hist("op:defun")
 		f := "(defun " + n + " " + k.text
 		if g.r.Chance(35) {
@@ -360,7 +508,11 @@ func (g *sessGen) step() {
 		n := g.pick(macNames)
 		g.hist("op:defmacro")
 		var f string
-		switch g.r.Intn(3) {
+		switch g.r.Intn(5) {
+		case 3:
+			f = fmt.Sprintf("(defmacro %s (x) (let* ((a (list '* x %d)) (b (list '+ a 1))) (cond ((consp b) b) (t a))))", n, 2+g.r.Intn(5))
+		case 4:
+			f = fmt.Sprintf("(defmacro %s (x) \"%s\" (let (a b) (setq a (list '+ x %d) b (list '* a 2)) (when (consp b) (setq a b)) a))", n, g.doc(), g.r.Intn(9))
 		case 0:
 			f = fmt.Sprintf("(defmacro %s (x) (list '+ x x %d))", n, g.r.Intn(9))
 		case 1:
@@ -407,6 +559,19 @@ func (g *sessGen) step() {
 			}
 			g.add(f + ")")
 			g.pkgs = append(g.pkgs, n)
+			// the packages section must come before the constants and the variables sections
+			if g.r.Chance(50) {
+				g.hist("op:defconstant-in-user-package")
+				g.add(fmt.Sprintf("(defconstant %s::+pc+ %d \"in %s\")", n, 10+g.r.Intn(80), n))
+				g.probe(n + "::+pc+")
+			}
+			if g.r.Chance(50) {
+				vn := g.pick(varNames)
+				g.hist("op:defparameter-package-object")
+				g.add(fmt.Sprintf("(defparameter %s (find-package \"%s\"))", vn, n))
+				g.vars[vn] = true
+				g.probe(fmt.Sprintf("(if (packagep %s) (package-name %s) %s)", vn, vn, vn))
+			}
 		} else if g.wild {
 			// variables and functions made inside a user package are not restored: outside the guard
 			g.hist("op:in-package")
@@ -428,26 +593,125 @@ func (g *sessGen) step() {
 		if len(g.flavors) > 0 && (g.r.Chance(70) || !g.wild) {
 			parents = g.flavors[len(g.flavors)-1] // a chain, unless wild
 		}
-		iv := common.Pick(g.r, []string{"(p)", "(p (q 2))", "((p 1) (q \"s\"))", "()"})
-		if g.wild && g.r.Chance(30) {
-			iv = "((p 'red))"
+		// own instance variables, some with defaults
+		type ivar struct{ name, def string }
+		var ivs []ivar
+		defaults := []string{"1", "2", "\"s\"", "2.5", ":kw", "t"}
+		for _, suffix := range []string{"-p", "-q"} {
+			if g.r.Chance(70) {
+				d := ""
+				if g.r.Chance(60) {
+					d = common.Pick(g.r, defaults)
+				}
+				ivs = append(ivs, ivar{n + suffix, d})
+			}
 		}
-		iv = strings.ReplaceAll(iv, "p", n+"-p")
-		iv = strings.ReplaceAll(iv, "q", n+"-q")
+		if g.wild && g.r.Chance(30) {
+			ivs = append(ivs, ivar{n + "-r", "'red"})
+		}
+		// a flavor may list an instance variable of a component again, with the same or with another default
+		inherited := append([]flavorVar{}, g.flavorVars[parents]...)
+		for _, pv := range inherited {
+			switch g.r.Intn(4) {
+			case 0:
+				g.hist("op:defflavor-override-default")
+				d := common.Pick(g.r, defaults)
+				for d == pv.def {
+					d = common.Pick(g.r, defaults)
+				}
+				ivs = append(ivs, ivar{pv.name, d})
+			case 1:
+				if pv.def != "" {
+					g.hist("op:defflavor-repeat-default")
+					ivs = append(ivs, ivar{pv.name, pv.def})
+				}
+			}
+		}
+		var parts []string
+		all := map[string]string{}
+		for _, pv := range inherited {
+			all[pv.name] = pv.def
+		}
+		for _, v := range ivs {
+			if v.def == "" {
+				parts = append(parts, v.name)
+			} else {
+				parts = append(parts, "("+v.name+" "+v.def+")")
+			}
+			all[v.name] = v.def
+		}
+		iv := "(" + strings.Join(parts, " ") + ")"
 		opts := common.Pick(g.r, []string{"", " :gettable-instance-variables", " :gettable-instance-variables :settable-instance-variables :inittable-instance-variables", " :inittable-instance-variables :gettable-instance-variables (:documentation \"a flavor\")"})
 		if parents != "" && !g.wild {
 			// the inittable variables of a flavor with components are written in Go's map order: outside the guard
 			opts = common.Pick(g.r, []string{"", " :gettable-instance-variables", " :gettable-instance-variables :settable-instance-variables", " :gettable-instance-variables (:documentation \"a flavor\")"})
+			// ... and Flavor.LoadForm works out :gettable / :settable from the methods that exist for the variables it
+			// lists, so the options of a flavor with components come back narrower or wider than they were unless
+			// the whole chain has the same ones [C19-flavor-gettable-inherited]: outside the guard
+			opts = ""
+			if g.flavorGet[parents] {
+				opts += " :gettable-instance-variables"
+			}
+			if g.flavorSet[parents] {
+				opts += " :settable-instance-variables"
+			}
+			if g.r.Chance(40) {
+				opts += " (:documentation \"a flavor\")"
+			}
 		}
 		g.add(fmt.Sprintf("(defflavor %s %s (%s)%s)", n, iv, parents, opts))
 		g.flavors = append(g.flavors, n)
-		if strings.Contains(opts, ":gettable") && strings.Contains(iv, n+"-p") {
-			g.probe(fmt.Sprintf("(send (make-instance '%s) :%s-p)", n, n))
+		for _, k := range common.SortedKeys(all) {
+			g.flavorVars[n] = append(g.flavorVars[n], flavorVar{k, all[k]})
+			// the default of every own and inherited variable, through the getter when there is one
+			g.probe(fmt.Sprintf("(send (make-instance '%s) :%s)", n, k))
+			g.probe(fmt.Sprintf("(slot-value (make-instance '%s) '%s)", n, k))
 		}
-		if g.wild && g.r.Chance(50) {
-			g.hist("op:defmethod-flavor")
-			g.add(fmt.Sprintf("(defmethod (%s :double) (a) (* 2 a))", n))
-			g.probe(fmt.Sprintf("(send (make-instance '%s) :double 4)", n))
+		g.probe(fmt.Sprintf("(make-load-form '%s)", n))
+		if strings.Contains(opts, ":inittable") {
+			g.flavorInit[n] = true
+		}
+		g.flavorGet[n] = strings.Contains(opts, ":gettable")
+		g.flavorSet[n] = strings.Contains(opts, ":settable")
+		// a variable whose value is an instance, directly or inside a hash table
+		if g.r.Chance(60) && len(g.flavorVars[n]) > 0 {
+			vn := g.pick(varNames)
+			first := g.flavorVars[n][0].name
+			inst := fmt.Sprintf("(make-instance '%s)", n)
+			if g.flavorInit[n] && g.r.Chance(70) {
+				for _, v := range ivs {
+					if v.name == first {
+						inst = fmt.Sprintf("(make-instance '%s :%s %d)", n, first, 10+g.r.Intn(80))
+					}
+				}
+			}
+			switch g.r.Intn(3) {
+			case 0:
+				g.hist("op:defvar-instance")
+				g.add(fmt.Sprintf("(defvar %s %s)", vn, inst))
+				g.probe(fmt.Sprintf("(send %s :%s)", vn, first))
+			case 1:
+				g.hist("op:defparameter-instance")
+				g.add(fmt.Sprintf("(defparameter %s %s \"holds an instance\")", vn, inst))
+				g.probe(fmt.Sprintf("(send %s :%s)", vn, first))
+			default:
+				g.hist("op:defparameter-hash-with-instance")
+				g.add(fmt.Sprintf("(defparameter %s (let ((table (make-hash-table))) (setf (gethash 'inst table) %s) table))", vn, inst))
+				g.probe(fmt.Sprintf("(send (gethash 'inst %s) :%s)", vn, first))
+			}
+			g.vars[vn] = true
+			g.instVars[vn] = true
+		}
+		if g.flavorInit[n] && len(g.flavorVars[n]) > 0 && g.r.Chance(50) {
+			// a function that makes and uses an instance
+			fn := g.pick(funNames)
+			if !g.macros[fn] && g.funs["__gen:"+fn] == "" {
+				first := g.flavorVars[n][0].name
+				g.hist("op:defun-with-make-instance")
+				g.add(fmt.Sprintf("(defun %s (x) (let ((o (make-instance '%s :%s x))) (list (send o :%s) x)))", fn, n, first, first))
+				g.funs[fn] = "(x)"
+				delete(g.calls, fn)
+			}
 		}
 	case x < 92:
 		n := g.pick(genNames)
@@ -474,7 +738,12 @@ func (g *sessGen) step() {
 			g.add(fmt.Sprintf("(defmethod %s ((a %s) b) (list '%s-%s b))", n, ty, n, ty))
 			g.probe(fmt.Sprintf("(%s %s 2)", n, arg))
 		} else {
-			g.add(fmt.Sprintf("(defmethod %s ((a %s)) (list '%s-%s a))", n, ty, n, ty))
+			if ty == "fixnum" {
+				g.curFun = n // the methods are written with the generic function, in name order with the functions
+				g.add(fmt.Sprintf("(defmethod %s ((a %s)) (list '%s-%s %s))", n, ty, n, ty, g.expr([]string{"a"}, 2)))
+			} else {
+				g.add(fmt.Sprintf("(defmethod %s ((a %s)) (list '%s-%s a))", n, ty, n, ty))
+			}
 			g.probe(fmt.Sprintf("(%s %s)", n, arg))
 		}
 	default:
@@ -491,7 +760,8 @@ func (g *sessGen) step() {
 // genSession builds one session: forms and probes.
 func genSession(r *common.Rng, hist func(string), wild, modelled bool) (forms, probes []string, wildText bool) {
 	g := &sessGen{r: r, hist: hist, funs: map[string]string{}, macros: map[string]bool{}, vars: map[string]bool{},
-		consts: map[string]bool{}, wild: wild, modelled: modelled}
+		consts: map[string]bool{}, wild: wild, modelled: modelled, calls: map[string]map[string]bool{},
+		flavorVars: map[string][]flavorVar{}, flavorInit: map[string]bool{}, flavorGet: map[string]bool{}, flavorSet: map[string]bool{}, instVars: map[string]bool{}}
 	n := 3 + r.Intn(10)
 	for i := 0; i < n; i++ {
 		g.step()
@@ -501,7 +771,10 @@ func genSession(r *common.Rng, hist func(string), wild, modelled bool) (forms, p
 	}
 	// probes: every variable, constant, function (with argument lists), macro, documentation
 	for _, v := range common.SortedKeys(g.vars) {
-		g.probe(v)
+		if !g.instVars[v] {
+			g.probe(v)
+			g.probe(fmt.Sprintf("(funcall %s 3)", v)) // when the value is a lambda: its behaviour (an error otherwise, in both)
+		}
 		g.probe(fmt.Sprintf("(documentation '%s 'variable)", v))
 	}
 	for _, c := range common.SortedKeys(g.consts) {
